@@ -133,7 +133,7 @@ def evaluate(ct, kwargs, adapter=None):
                     if not spec_eval(text, env):
                         out["violated"].append(f"raises:{allowed[0]} only-if")
                 except Exception as e2:
-                    out["violated"].append(f"raises:{allowed[0]} only-if (not evaluable: {e2})")
+                    out.setdefault("unevaluable", []).append(f"raises:{allowed[0]} only-if: {e2}")
         return out
     env = dict(ns)
     env.update(old)           # contracts speak about parameters at entry ...
@@ -151,14 +151,14 @@ def evaluate(ct, kwargs, adapter=None):
         try:
             env[lbl] = spec_eval(e, dict(env))
         except Exception as ex:
-            out["violated"].append(f"let {lbl} not evaluable: {type(ex).__name__}: {ex}")
+            out.setdefault("unevaluable", []).append(f"let {lbl}: {type(ex).__name__}: {ex}")
     for lbl, e in ct.ensures.items():
         if lbl.startswith("exc:"):
             continue
         try:
             ok = spec_eval(e, dict(env))
         except Exception as ex:
-            out["violated"].append(f"ensures:{lbl} (not evaluable: {type(ex).__name__}: {ex})")
+            out.setdefault("unevaluable", []).append(f"ensures:{lbl}: {type(ex).__name__}: {ex}")
             continue
         if not ok:
             out["violated"].append(f"ensures:{lbl}")
@@ -212,6 +212,7 @@ def bounded_search(ct, tier="quick", limit=None, stop_at=5):
         else:
             names.append(k)
     failures = []
+    uneval = []
     n = nontrivial = 0
     if cases_fn is not None:
         it = cases_fn(tier)
@@ -225,6 +226,8 @@ def bounded_search(ct, tier="quick", limit=None, stop_at=5):
             nontrivial += 1
         if len(samples) < 3 and n % 97 == 1:
             samples.append({"input": _js(kwargs), "outcome": res["outcome"], "result": _js(res.get("result"))})
+        if res.get("unevaluable") and len(uneval) < 3:
+            uneval.append({"input": _js(kwargs), "unevaluable": res["unevaluable"]})
         if res["violated"]:
             failures.append({"input": _js(kwargs), "violated": res["violated"], "outcome": res["outcome"],
                              "result": _js(res.get("result")), "exception": res.get("exception")})
@@ -232,7 +235,10 @@ def bounded_search(ct, tier="quick", limit=None, stop_at=5):
                 break
         if limit and n >= limit:
             break
-    return {"cases": n, "nontrivial": nontrivial, "failures": failures, "samples": samples}
+    out = {"cases": n, "nontrivial": nontrivial, "failures": failures, "samples": samples}
+    if uneval:       # a clause the harness cannot evaluate is a fault of the harness (exit 3), never a violation
+        out["error"] = "clause not evaluable on the concrete result: " + json.dumps(uneval)[:600]
+    return out
 
 
 def resolve(dotted):
